@@ -21,7 +21,7 @@ AddShow(v) == /\ Len(items) < MaxLen /\ items' = Append(items, <<1, v>>)
 Next == \E p \in Pieces : AddText(p) \/ AddShow(p)
 
 InvFieldComments == FieldComments(r) /\ (r.fault = "" => FieldComments(EndURL(r)))
-InvNoActionFault == NoActionFault(r)                                       \* fails: the empty value after a '?'
+InvNoActionFault == NoActionFault(r)
 InvValuesDecodeBack == ValuesDecodeBack(r)
 InvQueryValuesConfined == QueryValuesConfined(r)                           \* fails in srcset (text ",?")
 InvEndResets == LET e == EndURL(r) IN ~e.inURL /\ ~e.query /\ ~e.addAmp /\ ~e.removeQM
